@@ -8,7 +8,7 @@
 (* table's bucket.  Checked with: tlapm --threads 16 LimiterStepProof.tla    *)
 EXTENDS LimiterStep, TLAPS
 
-ASSUME ConstAssump == Burst \in Nat /\ MaxCalls \in Nat /\ MaxEnt \in Nat /\ MaxEnt >= 1 /\ AtomicForget = TRUE
+ASSUME ConstAssump == Burst \in Nat /\ MaxCalls \in Nat /\ MaxEnt \in Nat /\ MaxEnt >= 1 /\ AtomicForget = TRUE /\ RetryDeletes = FALSE
 
 TypeInv == /\ table \in 0..MaxEnt /\ nent \in 0..MaxEnt
            /\ tokens \in [Ent -> 0..Burst] /\ idle \in [Ent -> BOOLEAN] /\ dead \in [Ent -> BOOLEAN]
